@@ -136,6 +136,10 @@ structure Hub where
   nextReq : Nat
   /-- (worker id, `run_state == Stopped`) -/
   workers : List (Nat × Bool)
+  /-- workers whose session was flagged `Ready::ERROR` because `WorkerSession::send`
+      could not queue a request (`Channel::write_message` refused the frame); the
+      next loop iteration closes them -/
+  errored : List Nat
   /-- `CommandHub.tasks` ∪ `Server.queued_tasks` -/
   tasks : List Task
   /-- `Server.in_flight` -/
@@ -153,7 +157,7 @@ deriving Repr
 
 def Hub.init (fwd stopExcl retire : Bool) (timeout nworkers : Nat) : Hub :=
   { fwd, stopExcl, retire, timeout, now := 0, nextTask := 0, nextReq := 0,
-    workers := (List.range nworkers).map (fun i => (i, false)),
+    workers := (List.range nworkers).map (fun i => (i, false)), errored := [],
     tasks := [], inflight := [], closed := [], known := [], run := .running,
     log := [], seen := [] }
 
@@ -168,6 +172,12 @@ inductive Op where
   | response (w : Nat) (rid : Rid) (st : St)
   /-- worker `w`'s channel is closed -/
   | close (w : Nat)
+  /-- the request just scattered could not be queued on worker `w`'s channel
+      (`write_message` refused the frame: backlog of a worker that does not read,
+      or a frame larger than the channel's ceiling). As coded: the id stays in
+      flight and the worker stays counted in `expected_responses`; the session
+      is flagged in error and closed by the next loop iteration. -/
+  | sendFail (w : Nat)
   | advance (n : Nat)
   /-- client `c` hangs up -/
   | drop (c : Nat)
@@ -294,6 +304,10 @@ def close (h : Hub) (w : Nat) : Hub :=
   if h.run = .exited then h else
   { h with workers := h.workers.map (fun x => if x.1 = w then (x.1, true) else x) }
 
+/-- `WorkerSession::send` when `write_message` fails -/
+def sendFail (h : Hub) (w : Nat) : Hub :=
+  if h.run = .exited then h else { h with errored := w :: h.errored }
+
 -- ------------------------------------------------------------- tick ----
 
 def hasFinished (t : Task) : Bool := decide (t.ok + t.errors ≥ t.expected)
@@ -328,7 +342,9 @@ def tick (h : Hub) : Hub :=
   if h.run = .exited then h else
   let fin := h.tasks.filter (isDone h.now)
   let stop := fin.any (fun t => t.verb.isStop)
-  { h with tasks := h.tasks.filter (fun t => !isDone h.now t),
+  { h with workers := h.workers.map (fun x => if h.errored.contains x.1 then (x.1, true) else x),
+           errored := [],
+           tasks := h.tasks.filter (fun t => !isDone h.now t),
            inflight := h.inflight.filter (fun e => !fin.any (fun t => t.id = e.2)),
            log := h.log ++ fin.flatMap (finishEmits h),
            run := if stop then .exited else h.run,
@@ -340,6 +356,7 @@ def step (h : Hub) : Op → Hub
   | .request c v => request h c v
   | .response w rid st => response h w rid st
   | .close w => close h w
+  | .sendFail w => sendFail h w
   | .advance n => { h with now := h.now + n }
   | .drop c => if h.run = .exited then h else { h with closed := c :: h.closed }
   | .tick => tick h
